@@ -109,17 +109,36 @@ func specsFor(r *Run, f *ssa.Function) []core.Spec {
 			}
 		}
 	}
-	// keep only params constant at every site
+	// per call site, the constant values an argument can take: a literal constant, or - when the argument is a
+	// parameter of the caller - the values the caller's own specialisations give it (one level up)
+	valuesAt := func(s ssa.CallInstruction, i int) ([]constant.Value, bool) {
+		args := s.Common().Args
+		if i >= len(args) {
+			return nil, false
+		}
+		if c, ok := args[i].(*ssa.Const); ok && c.Value != nil {
+			return []constant.Value{c.Value}, true
+		}
+		if prm, ok := args[i].(*ssa.Parameter); ok && depthSpecs < 2 {
+			depthSpecs++
+			defer func() { depthSpecs-- }()
+			var vals []constant.Value
+			for _, csp := range specsFor(r, prm.Parent()) {
+				v, bound := csp[prm]
+				if !bound {
+					return nil, false
+				}
+				vals = append(vals, v)
+			}
+			return vals, len(vals) > 0
+		}
+		return nil, false
+	}
 	var keep []int
 	for _, i := range cand {
 		all := true
 		for _, s := range sites {
-			args := s.Common().Args
-			if i >= len(args) {
-				all = false
-				break
-			}
-			if c, ok := args[i].(*ssa.Const); !ok || c.Value == nil {
+			if _, ok := valuesAt(s, i); !ok {
 				all = false
 				break
 			}
@@ -134,22 +153,40 @@ func specsFor(r *Run, f *ssa.Function) []core.Spec {
 	seen := map[tup]bool{}
 	var out []core.Spec
 	for _, s := range sites {
-		sp := core.Spec{}
-		var key []string
+		// cartesian product of the values of the kept parameters at this site
+		combos := []core.Spec{{}}
 		for _, i := range keep {
-			c := s.Common().Args[i].(*ssa.Const)
-			sp[f.Params[i]] = c.Value
-			key = append(key, c.Value.ExactString())
+			vals, _ := valuesAt(s, i)
+			var next []core.Spec
+			for _, c := range combos {
+				for _, v := range vals {
+					n := core.Spec{}
+					for k2, v2 := range c {
+						n[k2] = v2
+					}
+					n[f.Params[i]] = v
+					next = append(next, n)
+				}
+			}
+			combos = next
 		}
-		k := strings.Join(key, ",")
-		if !seen[k] {
-			seen[k] = true
-			out = append(out, sp)
+		for _, sp := range combos {
+			var key []string
+			for _, i := range keep {
+				key = append(key, sp[f.Params[i]].ExactString())
+			}
+			k := strings.Join(key, ",")
+			if !seen[k] {
+				seen[k] = true
+				out = append(out, sp)
+			}
 		}
 	}
 	sort.Slice(out, func(i, j int) bool { return out[i].String(f) < out[j].String(f) })
 	return out
 }
+
+var depthSpecs int
 
 func isNamed(t types.Type) bool { _, ok := t.(*types.Named); return ok }
 
